@@ -300,6 +300,11 @@ def functional(w, final):
             tidal_scale, radius, bulk_density, gravity_surf = t.tidal_inputs
             res = cm(gravity_surf, radius, bulk_density, 1., tidal_scale, host_m, sus, love, terms, t.max_tidal_order_lvl, cpl_ctl_method=True)
             out['tidal_heating_global'], out['dUdM'], out['dUdw'], out['dUdO'] = res[0], res[1], res[2], res[3]
+            # documented relations on top of the pipeline: spin-rate derivative = M_host dUdO / C ; orbital derivatives through the dynamics functions
+            out['spin_derivative'] = host_m * res[3] / w.moi
+            if not DUAL:
+                dadt, dedt = ophys.semia_eccen_derivatives(a, n, e, m, res[1], res[2], host_m)
+                out['orbit.da_dt'], out['orbit.de_dt'] = dadt, dedt
     except Exception as ex:
         out['_error'] = repr(ex)[:300]
     return {k: ({'value': jval(v), 'term': term_of(v)} if k != '_error' else {'error': v}) for k, v in out.items()}
